@@ -325,3 +325,45 @@ pub fn cog_of(w: &[R]) -> R {
 pub fn cog(h: &[R], n: usize) -> Vec<Want> {
     (0..h.len()).map(|t| if t + 1 < n { Want::IfSome(cog_of(window(h, t, n))) } else { Want::Val(cog_of(window(h, t, n))) }).collect()
 }
+
+// ---------------------------------------------------------------- C04 moving averages
+
+/// e_0 = x_0, e_t = w x_t + (1-w) e_(t-1), w = alpha/(N+1); nothing reported before N values
+pub fn ema(h: &[R], n: usize, alpha: &R) -> Vec<Want> {
+    let w = alpha / ri(n as i64 + 1);
+    let mut e = R::zero();
+    (0..h.len())
+        .map(|t| {
+            e = if t == 0 { h[0].clone() } else { &w * &h[t] + (R::one() - &w) * &e };
+            if t + 1 < n {
+                Want::None
+            } else {
+                Want::Val(e.clone())
+            }
+        })
+        .collect()
+}
+/// gaussian weight of window position k (0 = oldest): exp(-(k-m)^2 / (2 s^2)), m = offset (N+1), s = N / sigma.
+/// Evaluated with the exact scalar's exp (2^-192).
+pub fn alma_weight(k: usize, n: usize, sigma: &R, offset: &R) -> R {
+    let m = offset * ri(n as i64 + 1);
+    let s = ri(n as i64) / sigma;
+    let d = ri(k as i64) - m;
+    let arg = -(&d * &d) / (ri(2) * &s * &s);
+    Q::from_ratio(arg).exp().get().expect("finite exp")
+}
+pub fn alma(h: &[R], n: usize, sigma: &R, offset: &R) -> Vec<Want> {
+    let weights: Vec<R> = (0..n).map(|k| alma_weight(k, n, sigma, offset)).collect();
+    (0..h.len())
+        .map(|t| {
+            let w = window(h, t, n);
+            let mut num = R::zero();
+            let mut den = R::zero();
+            for (k, x) in w.iter().enumerate() {
+                num += &weights[k] * x;
+                den += &weights[k];
+            }
+            Want::Val(num / den)
+        })
+        .collect()
+}
